@@ -125,7 +125,8 @@ def handle (j : Json) : Json :=
       arrays := f.arrays,
       defaultsOn := defaultsOn c,
       sharedDefault := f.shared,
-      genType := getNat c "type" })
+      genType := getNat c "type",
+      recursive := getBool c "rec" })
   let cm : CaseM := { ops := ops, g := getNat j "g", per := getNat j "per", sched := getNat j "sched" }
   let out := outcome cm
   let kinds := (ops.map (fun o => kindStr o.kind)).foldl (fun acc k => insertSorted k acc) []
@@ -137,12 +138,16 @@ def handle (j : Json) : Json :=
     (if multi && ops.any (fun o => o.kind = .gen) then ["typeinfo.cacheFill"] else []) ++
     (if multi && ops.any (fun o => validates o.kind && o.defaultsOn) then ["defaults.on"] else []) ++
     (if getBool j "cold" then ["cold.firstUse"] else []) ++
-    (if Excl cm then ["excl.sharedDefault"] else [])
+    (if ExclSharedDefault cm then ["excl.sharedDefault"] else []) ++
+    (if ExclTypeInfo cm then ["excl.typeInfoIdentity"] else [])
   jobj [
     ("model", jobj [("race", Json.bool out.race), ("diverge", Json.bool out.diverge), ("docChanged", Json.bool out.docChanged)]),
     ("spec", jobj [("race", Json.bool specOutcome.race), ("diverge", Json.bool specOutcome.diverge),
                    ("docChanged", Json.bool specOutcome.docChanged)]),
-    ("excl", jstrs (if Excl cm then ["SharedObjectDefault"] else [])),
+    ("may", let m := mayOutcome cm
+            jobj [("race", Json.bool m.race), ("diverge", Json.bool m.diverge), ("docChanged", Json.bool m.docChanged)]),
+    ("excl", jstrs ((if ExclSharedDefault cm then ["SharedObjectDefault"] else []) ++
+                    (if ExclTypeInfo cm then ["TypeInfoIdentity"] else []))),
     ("branches", jstrs branches),
     ("trace_len", Json.num (caseTrace cm).length)]
 
